@@ -303,6 +303,25 @@ impl<'tcx> Cx<'tcx> {
                                 o.set("bytes_hex", J::s(hex(&b)));
                             }
                         }
+                    } else if matches!(et.kind(), TyKind::Ref(_, inner, _) if matches!(inner.kind(), TyKind::Slice(_) | TyKind::Str)) {
+                        // table of byte-string / str references: one fat pointer (2 words) per element
+                        if let Some(n) = n.try_to_target_usize(tcx) {
+                            let psz = tcx.data_layout.pointer_size().bytes();
+                            let mut items = Vec::new();
+                            let mut all = true;
+                            for i in 0..n {
+                                match self.read_fat_ptr(alloc_id, offset.bytes() + i * 2 * psz) {
+                                    Some(b) => items.push(J::s(hex(&b))),
+                                    None => {
+                                        all = false;
+                                        break;
+                                    }
+                                }
+                            }
+                            if all {
+                                o.set("elems_hex", J::Arr(items));
+                            }
+                        }
                     }
                 }
                 o.set("indirect", J::Bool(true));
